@@ -664,7 +664,7 @@ func run(a *hlib.Args, e *hlib.Emitter) error {
 	}
 	errs := make([]error, len(cases))
 	var wg sync.WaitGroup
-	sem := make(chan struct{}, 8)
+	sem := make(chan struct{}, 12)
 	for i, c := range cases {
 		wg.Add(1)
 		go func(i int, c *c08case) {
